@@ -215,8 +215,8 @@ K("O10.1", ["C10"], "compiler", "c10_add_constant", level="bounded", bound="cons
 
 K("O10.1t", ["C10"], "compiler", "c10_add_constant_pool3", level="bounded", tier="thorough", bound="constant pool of 0..=3 immediates (null, bools, ints, function descriptors), symbolic new immediate", functions=["Compiler::add_constant"],
   desc="thorough tier: O10.1 on a larger pool over all immediates; an equal entry is re-used, a new one appended at the end")
-K("O10.1f", ["C10"], "compiler", "c10_add_constant_float", level="bounded", bound="pool of one float constant; all pairs of non-NaN f64 bit patterns", functions=["Compiler::add_constant"],
-  desc="a float literal lands in a slot whose value is IEEE-equal to it; the existing slot is unchanged (added after seeded change C10-3 was missed)")
+K("O10.1f", ["C10", "C04"], "compiler", "c10_add_constant_float", level="bounded", bound="pool of one float constant; all pairs of non-NaN f64 bit patterns", functions=["Compiler::add_constant"],
+  desc="a float literal lands in a slot whose value is IEEE-equal to it; the existing slot is unchanged (added after seeded change C10-3 was missed); frame: add_constant never untraces (the collector keeps owning every constant until compile_program hands the pool over on success; added after seeded change C04-2 was missed)")
 
 # ---------------------------------------------------------------------------------------------
 # C11 structured control flow
